@@ -62,14 +62,19 @@ Scenario ==
 CfgH(smart, eng) == Cfg(smart, eng, FALSE)
 CheckAt(on, off, i) == [k |-> "curl", on |-> <<on, i>>, off |-> <<off, i>>, parts |-> Typed,
                         wordempty |-> (S.word = <<>>), translit |-> (Method = "phonetic")]
+\* (... and then the text WITHOUT its trailing punctuation: a closing punctuation key echoes the caller's selection byte - F05 -,
+\*  which would hide a preselection that differs between the two sides)
+TypedPW == <<"$P", "$W">>
+CheckPW(on, off, i) == [k |-> "curl", on |-> <<on, i>>, off |-> <<off, i>>, parts |-> <<"$P", "$W", "">>,
+                        wordempty |-> (S.word = <<>>), translit |-> (Method = "phonetic")]
 Learned(eng, nvar) ==
     [mc |-> "Script", site |-> "curl", variants |-> nvar, reuse |-> FALSE,
      vars |-> [P |-> Back(S.pre), W |-> Back(S.word), Q |-> Back(S.trail)],
      runs |-> [A |-> <<[op |-> "new", cfg |-> CfgH(TRUE, eng), home |-> "hA"],  [op |-> "type", text |-> Typed],
-                       [op |-> "commit", idx |-> "other"], [op |-> "type", text |-> Typed]>>,
+                       [op |-> "commit", idx |-> "other"], [op |-> "type", text |-> Typed], [op |-> "finish"], [op |-> "type", text |-> TypedPW]>>,
                B |-> <<[op |-> "new", cfg |-> CfgH(FALSE, eng), home |-> "hB"], [op |-> "type", text |-> Typed],
-                       [op |-> "commit", idx |-> "other"], [op |-> "type", text |-> Typed]>>],
-     checks |-> <<CheckAt("A", "B", 1), CheckAt("A", "B", 3)>>]
+                       [op |-> "commit", idx |-> "other"], [op |-> "type", text |-> Typed], [op |-> "finish"], [op |-> "type", text |-> TypedPW]>>],
+     checks |-> <<CheckAt("A", "B", 1), CheckAt("A", "B", 3), CheckPW("A", "B", 5)>>]
 \* (emoticons: with the English option on and off - the literal text of an emoticon is offered either way - and with each of
 \*  the other candidates committed)
 EmitLearned == /\ (Method = "phonetic" /\ HasQuote(text) /\ S.word # <<>> /\ Len(text) <= MaxLearn /\ ~IsEmoticonText)
